@@ -155,9 +155,11 @@ class VCGen(SpecMixin, CallMixin, StmtMixin, ExprMixin, Engine):
                     return
             val = cv
         fs = self.final_env(st, entry, val)
+        if c.detached is not None and self.in_coroutine:
+            _rely.check_detached(self, c, fs, fi.node)
         for i, e in enumerate(c.ensures):
             goal = self.spb(e, fs, +1)
-            self.add_vc('post[%d]' % i, 'post', fs, goal, fi.node, note=e)
+            self.add_vc('post[%s]' % c.ensure_names[i], 'post', fs, goal, fi.node, note=e)
         for i, e in enumerate(c.must_fail):
             goal = self.spb(e, fs, +1)
             self.add_vc('mustfail[%d]' % i, 'mustfail', fs, goal, fi.node, expect='refutable', note=e)
@@ -190,9 +192,12 @@ class VCGen(SpecMixin, CallMixin, StmtMixin, ExprMixin, Engine):
         self.check_frame(mods, fs, entry, fi, 'frame-exc[%s]' % exc.cls)
 
     def check_frame(self, modifies, fs, entry, fi, label):
+        """everything outside the modifies clause is unchanged (one conjoined obligation per exit)"""
         mods = self.parse_mods(modifies, entry, fi.node)
         if mods['all']:
             return
+        goals = []
+        what = []
         for key in sorted(fs.heap):
             if key[1] == '$alloc':
                 continue
@@ -214,8 +219,8 @@ class VCGen(SpecMixin, CallMixin, StmtMixin, ExprMixin, Engine):
                 o = z3.Int(fresh_name('o'))
                 goal = z3.ForAll([o], z3.Implies(z3.Select(alloc0[0], o), z3.And(
                     *[z3.Select(a, o) == z3.Select(b, o) for a, b in zip(now, was)])))
-            self.add_vc('%s[%s.%s]' % (label, key[0], key[1]), 'frame', fs, goal, fi.node,
-                        note='modifies clause does not list %s.%s' % key)
+            goals.append(goal)
+            what.append('%s.%s' % key)
         for g in sorted(fs.ghost):
             if g in mods['ghosts']:
                 continue
@@ -223,8 +228,11 @@ class VCGen(SpecMixin, CallMixin, StmtMixin, ExprMixin, Engine):
             was = self.ghost_get(entry, g)
             if all(x.eq(y) for x, y in zip(now.t, was.t)):
                 continue
-            self.add_vc('%s[ghost %s]' % (label, g), 'frame', fs, self.eq(fs, now, was), fi.node,
-                        note='modifies clause does not list ghost %s' % g)
+            goals.append(self.eq(fs, now, was))
+            what.append('ghost ' + g)
+        if goals:
+            self.add_vc(label, 'frame', fs, zand(goals), fi.node,
+                        note='modifies clause does not list: ' + ', '.join(what))
 
     def enter_coroutine(self, c, fi, st):
         from .rely import install
